@@ -2,7 +2,7 @@
 # confirm_many.sh <round-suffix> <ids...> : run confirm_seed for each, print a one-line summary
 for ID in "$@"; do
   P=${ID:0:3}
-  FEAT="--features vecdeque,ndarray"
+  FEAT="--features vecdeque,ndarray,fdiff"
   OUT=$(./confirm_seed.sh $P $ID "$FEAT" 2>&1)
   W=$(echo "$OUT" | sed -n '/demo WITH change/,/suite WITH/p' | grep -c "FAILED")
   S=$(echo "$OUT" | grep "^passed" | head -1)
